@@ -27,7 +27,7 @@ CHECKS = {
    note='Pipe fragmentation is modelled as read() returning fewer bytes than asked; vsched trusted.'),
  'C01': dict(cat='model_checking', engine='codecx (E6) + lbzx batch + lbzx explorer (E1/E2)', ref='DESIGN.md §5 C01',
    technique='bounded-exhaustive enumeration of inputs x block capacities through the real codec chain (round-trip oracle) plus stateless model checking (delay-bounded schedule enumeration) of whole-program compression and decompression runs',
-   text='(a) every string over {a,b} up to length 10 (thorough 13), over {a,b,c} up to 6 (8), run families around the 4/259 limits and every alphabet size, for every block capacity, through collect->encode->transmit->parse->retrieve->decode->emit; (b) the compression corpus (kinds corpus, all levels, both modes, block-boundary families, sweeps) x W, each output decompressed again by lbzip2 with another W; (c) every execution with <= d deviations (quick 2, thorough 3; scheduling choices and short writes) of compression runs (each distinct output decompressed) and of a decompression run; whole-run write fragmentation in both directions. Oracle: bytes back == input, status 0, stderr empty.',
+   text='(a) every string over {a,b} up to length 10 (thorough 13), over {a,b,c} up to 6 (8), run families around the 4/259 limits and every alphabet size, for every block capacity, through collect->encode->transmit->parse->retrieve->decode->emit; (a2) divbwt() against the sorted cyclic rotations (prefix-doubling reference) on every string over {a,b} up to 16 (20), {a,b,c} up to 10 (12), powers of every word over {a,b} of length <= 7 (9) with no/one changed byte, every prefix of four automatic words up to 1500 (6000), 256-symbol sequences and run blocks; (b) the compression corpus (kinds corpus, all levels, both modes, block-boundary families, sweeps) x W, each output decompressed again by lbzip2 with another W; (c) every execution with <= d deviations (quick 2, thorough 3; scheduling choices and short writes) of compression runs (each distinct output decompressed) and of a decompression run; whole-run write fragmentation in both directions. Oracle: bytes back == input, status 0, stderr empty.',
    note='Unbounded "every input" is decided for the enumerated scopes only; vsched trusted for (b),(c).'),
  'C02': dict(cat='exploration', engine='lbzx batch + bzref inspector (E3) + libbz2', ref='DESIGN.md §5 C02',
    technique='bounded-exhaustive enumeration of inputs/levels/modes through the real compressor; every produced stream walked bit by bit by an independent inspector (reference model of the format) and decoded by libbz2',
@@ -50,7 +50,7 @@ CHECKS = {
    text='Every candidate of the C05 enumeration that the reference rejects (or that is a documented exception) must end with exit status exactly 1, a diagnostic on stderr, no signal, no deadlock/horizon, under both configurations; a subset is run with FILE operands on the real binary to check that no output file remains.',
    note='Same trusted base as C05; hang = scheduler horizon / no enabled thread.'),
  'C08': dict(cat='exploration', engine='ASan+UBSan / MSan builds of lbzx and codecx', ref='DESIGN.md §5 C08',
-   technique='sanitizers as per-execution oracle over the bounded-exhaustive enumerations of C01/C02/C04/C05-C07/C09/C14/C20 (no separate sampling)',
+   technique='sanitizers as per-execution oracle over the bounded-exhaustive enumerations of C01 (codec chain, divbwt)/C02/C04/C05-C07/C09/C14/C20 (no separate sampling); harness heap canaries, poisoned under ASan so that reads behind or in front of a block are reported too',
    text='The decompression candidate set (two configurations) and the compression corpus (compress + decompress) are re-run in an AddressSanitizer+UBSan whole-program build; the function-level enumerations (codec chain, collect sequences, retrieve/emit splits with exact-size allocations, scanner, code construction) run under ASan+UBSan and MemorySanitizer. Any report or crash is a violation.',
    note='Sanitizers see only what the enumerated inputs execute.'),
  'C09': dict(cat='model_checking', engine='codecx (E6) + lbzx batch + explorer (E1/E2) + hook H1', ref='DESIGN.md §5 C09',
